@@ -57,7 +57,8 @@ fn start_doc(k: usize) -> Document {
             // two pages under an intermediate node with inherited resources, shared font
             put(1, d(vec![("Type", name("Catalog")), ("Pages", r(2))]));
             put(2, d(vec![("Type", name("Pages")), ("Kids", arr(vec![r(3)])), ("Count", Object::Integer(2)), ("Resources", r(8))]));
-            put(3, d(vec![("Type", name("Pages")), ("Parent", r(2)), ("Kids", arr(vec![r(4), r(5)])), ("Count", Object::Integer(2))]));
+            // page order (5 then 4) deliberately differs from object-number order
+            put(3, d(vec![("Type", name("Pages")), ("Parent", r(2)), ("Kids", arr(vec![r(5), r(4)])), ("Count", Object::Integer(2))]));
             put(4, d(vec![("Type", name("Page")), ("Parent", r(3)), ("Contents", r(6))]));
             put(5, d(vec![("Type", name("Page")), ("Parent", r(3)), ("Contents", arr(vec![r(7)]))]));
             put(6, stream(vec![], b"BT /F1 9 Tf (p1) Tj ET"));
@@ -112,7 +113,7 @@ fn start_doc(k: usize) -> Document {
             version: "1.6".into(),
             mark: vec![0xe2, 0xe3, 0xcf, 0xd3],
             style: Style::Stream,
-            sections: vec![Section { objects: doc.objects.clone(), trailer: doc.trailer.clone(), objstm: Some(1), omit_xref: vec![] }],
+            sections: vec![Section { objects: doc.objects.clone(), trailer: doc.trailer.clone(), objstm: Some(1), omit_xref: vec![], extra_members: vec![] }],
             helper_base: None,
         };
         let (bytes, _) = refpdf::write(&spec, &mut vharness::choose::Chooser::new());
